@@ -45,6 +45,20 @@ EXPRS = [
     ("fstring", "f'{z!r:>{R[0] + 3}}'", ["R", "z"], []),
     ("fstring.comp", "f'{[i for i in R]}'", ["R"], ["i"]),
     ("genexp-sole-argument", "sum(i for i in R)", ["R"], ["i"]),
+    # a name bound inside a lambda body (comprehension variable, := target, parameter) and read as a FREE name later in the
+    # same piece of code: the inner binding is private to the lambda, the later read comes from the namespace
+    ("after-lambda.listcomp-variable", "((lambda s: [i for i in s])(R), i)", ["R", "i"], ["s"]),
+    ("after-lambda.genexp-variable", "((lambda s: sorted(i for i in s))(R), i)", ["R", "i"], ["s"]),
+    ("after-lambda.setcomp-variable", "((lambda s: sorted({i for i in s}))(R), i)", ["R", "i"], ["s"]),
+    ("after-lambda.dictcomp-variable", "((lambda s: {i: 1 for i in s})(R), i)", ["R", "i"], ["s"]),
+    ("after-lambda.comp-condition-variable", "((lambda s: [1 for i in s if i])(R), i)", ["R", "i"], ["s"]),
+    ("after-lambda.walrus-target", "((lambda s: (w := s))(R), w)", ["R", "w"], ["s"]),
+    ("after-lambda.nested-lambda-comp-variable", "((lambda s: (lambda t: [i for i in t])(s))(R), i)", ["R", "i"], ["s"]),
+    ("after-lambda.parameter", "((lambda p: p)(z), p)", ["z", "p"], []),
+    ("after-lambda.vararg-parameter", "((lambda *a: a)(z), a)", ["z", "a"], []),
+    ("after-lambda.kwonly-parameter", "((lambda *, k=1: k)(), k)", ["k"], []),
+    ("after-lambda.two-lambdas", "((lambda s: [i for i in s])(R), (lambda s: [j for j in s])(R), i, j)", ["R", "i", "j"], ["s"]),
+    ("after-comp.lambda-in-element", "([(lambda: [i for i in R])() for q in R], i)", ["R", "i"], ["q"]),
     ("attribute-name", "z.real", ["z"], []),
     ("keyword-argument-name", "dict(k=z)", ["z"], []),
 ]
@@ -72,6 +86,17 @@ STMTS = [
     ("def.local-comp-if-free", "def g():\n    return [i for i in R if i != z]\nr19 = g()", ["R", "z"], ["i"]),
     ("def.inner-lambda-vararg", "def g():\n    return (lambda *a: a)(z)\nr19 = g()", ["z"], ["a"]),
     ("def.local-for-target", "def g():\n    for a, *b in P3:\n        pass\n    return (a, b)\nr19 = g()", ["P3"], ["a", "b"]),
+    ("after-lambda.assigned-comp-variable", "g = lambda s: [i * i for i in s]\nr19 = (i, g(R))", ["R", "i"], []),
+    ("after-lambda.assigned-walrus-target", "g = lambda s: (w := s)\nr19 = (g(R), w)", ["R", "w"], []),
+    ("after-lambda.inside-def-body",
+     "def g(rows):\n    width = lambda row: max(c for c in row)\n    return [width(r) for r in rows], c\nr19 = g(RR)", ["RR", "c"], ["rows", "row", "r"]),
+    ("after-lambda.inside-def-body-walrus",
+     "def g(rows):\n    first = lambda row: (h := row[0])\n    return first(rows), h\nr19 = g(RR)", ["RR", "h"], ["rows", "row"]),
+    ("after-def.comp-variable", "def g(s):\n    return [i for i in s]\nr19 = (g(R), i)", ["R", "i"], ["s"]),
+    ("after-def.local-variable", "def g(s):\n    t = s\n    return t\nr19 = (g(R), t)", ["R", "t"], ["s"]),
+    ("after-def.parameter", "def g(p):\n    return p\nr19 = (g(z), p)", ["z", "p"], []),
+    ("after-def.nested-def-comp-variable",
+     "def g(s):\n    def h(u):\n        return [i for i in u]\n    return h(s), i\nr19 = g(R)", ["R", "i"], ["s", "u", "h"]),
     ("lambda-assigned.vararg-kwonly", "g = lambda *a, k=z: (a, k)\nr19 = g(1)", ["z"], ["a", "k"]),
     ("except-as", "try:\n    raise ValueError(z)\nexcept ValueError as e:\n    r19 = e.args", ["z"], []),
     ("with-as", "with cm19(z) as w:\n    r19 = w", ["z"], []),
